@@ -514,10 +514,24 @@ SA = _solo([0, 0, 1])
 SB = _solo([1, 0, 0])
 
 
-def ob_interleave(s0: bool, s1: bool, s2: bool, s3: bool, s4: bool, s5: bool, abandon: bool) -> bool:
+def _pickb(x):
+    from crosshair.tracers import ResumedTracing
+    with ResumedTracing():
+        return True if x else False
+
+
+def ob_interleave(s0: bool, s1: bool, s2: bool, s3: bool, s4: bool, s5: bool, s6: bool, s7: bool, abandon: bool) -> bool:
     """
     post: _
     """
+    # the schedule only steers the harness: the two generators of the real _ctparse run untraced
+    with NoTracing():
+        sched = [_pickb(s) for s in (s0, s1, s2, s3, s4, s5, s6, s7)]
+        ab = _pickb(abandon)
+        return _interleave(sched, ab)
+
+
+def _interleave(sched, abandon):
     old = (C._match_regex, PP.global_rules)
     C._match_regex = fake_match_regex
     PP.global_rules = mk_rules()
@@ -525,7 +539,7 @@ def ob_interleave(s0: bool, s1: bool, s2: bool, s3: bool, s4: bool, s5: bool, ab
         ga, gb = _gen([0, 0, 1]), _gen([1, 0, 0])
         oa, ob = [], []
         da = db = False
-        for s in (s0, s1, s2, s3, s4, s5):
+        for s in sched:
             if s and not da:
                 try:
                     p = next(ga)
@@ -549,3 +563,31 @@ def ob_interleave(s0: bool, s1: bool, s2: bool, s3: bool, s4: bool, s5: bool, ab
     finally:
         C._match_regex, PP.global_rules = old
     return oa == SA and (abandon or ob == SB) and ob == SB[:len(ob)] and after == SA
+
+
+# ------------------------------------------------------------------ SPAN-TRIM (C09)
+
+class _SpanM:
+    def __init__(self, a, text):
+        self.a, self.text = a, text
+
+    def span(self, key):
+        return (self.a, self.a + len(self.text))
+
+    def group(self, key):
+        return self.text
+
+
+TRIM_TEXTS = ["ab", "ab ", "ab  ", "a b ", "a", "8 h ", "wed\t", "x  "]
+
+
+def ob_span_trim(a: int, ti: int) -> bool:
+    """
+    pre: 0 <= a <= 50 and 0 <= ti < 8
+    post: _
+    """
+    text = TRIM_TEXTS[ti]
+    m = RegexMatch(123, _SpanM(a, text))
+    core = text.rstrip()
+    # the span starts where the match starts and ends with the last non-blank character
+    return m.mstart == a and m.mend == a + len(core) and m.mend > m.mstart and not text[m.mend - a - 1].isspace()
